@@ -322,5 +322,38 @@ impl RollingSummary {
 //@END
 }
 
+// ------------------------------------------------------------------ snapshot: merge exactly the buckets inside the window
+/// samples of the buckets of `s` that are inside the window (`cutoff` = now - window when representable), newest bucket first
+spec fn merged(s: Seq<Bucket>, cutoff: Option<Instant>) -> Seq<f64>
+    decreases s.len()
+{
+    if s.len() == 0 { Seq::<f64>::empty() }
+    else if cutoff is None || s[0].begin.t > cutoff->Some_0.t { s[0].summary@ + merged(s.drop_first(), cutoff) }
+    else { merged(s.drop_first(), cutoff) }
+}
+
+// R45: `self.buckets.iter().filter(P).map(|b| &b.summary).fold(&mut acc, |acc, item| { acc.merge(item).expect(..); acc })` -- an
+// iterator-adapter chain Verus cannot take -- becomes `shim_merge_filtered(&self.buckets, Ghost(cutoff), P, &mut acc)`.  std's
+// filter / map / fold contracts and Summary::merge (appends the other sketch's samples; Ok for equal configurations) are ASSUMED;
+// the REAL predicate text P stays and is annotated with what the property asks of it ("ignore samples older than the window").
+#[verifier::external_body]
+fn shim_merge_filtered<F: FnMut(&Bucket) -> bool>(v: &Vec<Bucket>, Ghost(cutoff): Ghost<Option<Instant>>, f: F, acc: &mut Summary)
+    requires forall|x: &Bucket| #[trigger] f.requires((x,)),
+             forall|x: &Bucket, r: bool| #[trigger] f.ensures((x,), r) ==> r == (cutoff is None || x.begin.t > cutoff->Some_0.t),
+    ensures final(acc)@ == old(acc)@ + merged(v@, cutoff),
+{ unimplemented!() }
+
+impl RollingSummary {
+//@ITEM file=metrics-exporter-prometheus/src/distribution.rs sel=impl RollingSummary :: fn snapshot ret=r
+//@REWRITE R45 re:(?s)self\.buckets\s*\.iter\(\)\s*\.filter\(\|b\| (.+?)\)\s*\.map\(\|b\| &b\.summary\)\s*\.fold\(&mut acc, \|acc, item\| \{\s*acc\.merge\(item\)\.expect\("[^"]*"\);\s*acc\s*\}\); ==> shim_merge_filtered(&self.buckets, Ghost(cutoff), |b: &Bucket| -> (keep: bool) ensures keep == (cutoff is None || b.begin.t > cutoff->Some_0.t) { \1 }, &mut acc);
+//@SPEC
+    ensures
+        // exactly the samples of the buckets that began less than count*duration before `now`; every bucket when now < window
+        r@ == merged(self.buckets@, if now.t >= self.max_bucket_duration.n { Some(Instant { t: (now.t - self.max_bucket_duration.n) as u64 }) } else { None::<Instant> }),
+        // an empty rolling summary gives an empty snapshot (quantile 0 is the renderer's reading of that)
+        self.buckets@.len() == 0 ==> r@.len() == 0,
+//@END
+}
+
 } // verus!
 fn main() {}
